@@ -18,3 +18,5 @@ open RaftLog
 #print axioms c06_sys_same_verdict_reachable
 #print axioms c06_sys_same_verdict_c01
 #print axioms c06_sys_batch_same_verdict
+#print axioms c06_same_verdict_any
+#print axioms c06_sys_same_verdict_any
